@@ -33,14 +33,33 @@ def run(F, R, tier):
         detail = "loop has no `if !seen.insert(next) { break }`"
         cur_lid = None
         nxt_lid = None
-        if lp["k"] == "While" and lp["cond"].get("k") == "Let":
-            init = peel(lp["cond"]["init"])
-            if init.get("k") == "MethodCall" and init["name"] == "get" and field_of(init["recv"]) == "redirects":
-                cur_lid = peel_value(init["args"][0]).get("lid")
-            bs = pat_bindings(lp["cond"]["pat"])
-            nxt_lid = bs[0]["lid"] if bs else None
+        # `while let Some(next) = self.redirects.get(cur)`, or the same lookup as
+        # `let Some(next) = .. else { break }` / `if let` / `match` inside a `loop`
+        end_of_chain = []  # sub-trees executed when the lookup finds no further redirect
+        for gc in walk(lp):
+            if gc.get("k") == "MethodCall" and gc["name"] == "get" and field_of(gc["recv"]) == "redirects" and cur_lid is None:
+                for a in k_ancestors(gc):
+                    if a is lp["_p"]:
+                        break
+                    if a.get("k") in ("Let", "LetStmt") and "init" in a and is_within(gc, a["init"]):
+                        bs = pat_bindings(a["pat"])
+                        if bs:
+                            cur_lid = peel_value(gc["args"][0]).get("lid")
+                            nxt_lid = bs[0]["lid"]
+                            if "else" in a:
+                                end_of_chain.append(a["else"])
+                            elif a["_p"].get("k") == "If" and a["_p"]["cond"] is a and "else" in a["_p"]:
+                                end_of_chain.append(a["_p"]["else"])
+                        break
+                    if a.get("k") == "Match" and is_within(gc, a["scrut"]):
+                        bs = [b_ for arm in a["arms"] for b_ in pat_bindings(arm["pat"])]
+                        if bs:
+                            cur_lid = peel_value(gc["args"][0]).get("lid")
+                            nxt_lid = bs[0]["lid"]
+                            end_of_chain += [arm["body"] for arm in a["arms"] if not pat_bindings(arm["pat"])]
+                        break
         R.ob("C14-a", "loop advances along graph.redirects", cur_lid is not None and nxt_lid is not None,
-             "loop in resolve is not `while let Some(next) = self.redirects.get(cur)`", where(lp))
+             "the loop in resolve does not look up `self.redirects.get(cur)` and bind the next hop", where(lp))
         breaks = [n for n in walk(lp["body"], into_closures=False) if n["k"] == "Break" and n.get("target") == lp.get("h")]
         seen_break = None
         for br in breaks:
@@ -69,7 +88,7 @@ def run(F, R, tier):
                  where(bad[0][1]) if bad else "")
             # any other way out of the loop is the hop cap: taken only once the number of followed
             # hops has reached a bound, never below it
-            for br in [x for x in walk(lp["body"]) if x.get("k") in ("Break", "Ret") and x is not seen_break[0]]:
+            for br in [x for x in walk(lp["body"]) if x.get("k") in ("Break", "Ret") and x is not seen_break[0] and not any(is_within(x, e_) for e_ in end_of_chain)]:
                 g = guards_at(F, br, stop_at=lp)
                 capped = any(x.kind == "cond" and x.pol and x.node.get("k") == "Binary" and x.node["op"] in (">=", ">") and any(y.get("k") == "MethodCall" and y["name"] == "len" for y in walk(x.node["l"])) for x in g) or \
                     any(x.kind == "cond" and x.pol and x.node.get("k") == "Binary" and x.node["op"] in ("<=", "<") and any(y.get("k") == "MethodCall" and y["name"] == "len" for y in walk(x.node["r"])) for x in g)
@@ -205,8 +224,16 @@ def run(F, R, tier):
         R.ob("C14-c", "try_get: value under slot kinds %s" % sorted(kinds), ok, "try_get maps slot kind %s to `%s`" % (sorted(kinds), expr_text(v)[:30]), where(v))
     R.ob("C14-c", "try_get distinguishes module / error / other slots", {("Err",), ("Module",), ()} <= n_cls, "shape changed: try_get no longer has a result per slot kind (found %s)" % sorted(n_cls), b["file"])
     b = F.body("graph::ModuleGraph::contains")
-    mm = [n for n in walk(b["body"]) if n["k"] == "Match" and "matches" in (n.get("mac") or [])]
-    R.ob("C14-c", "contains is true exactly for module slots", len(mm) == 1 and pat_text(mm[0]["arms"][0]["pat"]).startswith("graph::ModuleSlot::Module("),
+    # any test of the slot kind (matches!, match, if let) singles out exactly ModuleSlot::Module
+    mm = [n for n in walk(b["body"]) if n["k"] == "Match" and any("graph::ModuleSlot::" in pat_text(a_["pat"]) for a_ in n["arms"])]
+    mm += [n for n in walk(b["body"]) if n["k"] == "Let" and "graph::ModuleSlot::" in pat_text(n["pat"])]
+    def _only_module(n):
+        pats = [a_["pat"] for a_ in n["arms"]] if n["k"] == "Match" else [n["pat"]]
+        vs = set()
+        for pt in pats:
+            vs |= set(re.findall(r"graph::ModuleSlot::\w+", pat_text(pt)))
+        return vs == {"graph::ModuleSlot::Module"}
+    R.ob("C14-c", "contains is true exactly for module slots", len(mm) == 1 and _only_module(mm[0]),
          "contains() no longer tests matches!(slot, ModuleSlot::Module(_))", b["file"])
     b = F.body("graph::ModuleGraph::resolve_dependency_from_dep")
     rets = [n for n in walk(b["body"]) if n["k"] == "Ret"]
